@@ -100,6 +100,34 @@ def dispatch_rule(L, R, frozen, tier):
                  key='%s:window' % k, witness={'m': m, C14.WINDOWS[k][0]: b, 'cpu': cpu})
         else:
             R.ob('accelerated-kernel-selected-only-where-it-equals-the-reference', k, 'holds')
+    # the conversion tables a module installs: a bound-specialised kernel must equal the reference on the module's whole
+    # operand range (inputs below 2^50, product coefficients below 2^52: the documented budget of the FFT64 backend)
+    BUDGET = {'reim_from_znx64': 50, 'reim_to_znx64': 52}
+    for N in (16, 64):
+        c = Ctx(L, cpu='accel', trusted=TRUSTED)
+        mod = c.module(N, 0)
+        bad = None
+        seen = 0
+        for off, (sz, v) in sorted(mod.obj.fields.items()):
+            if isinstance(v, Ptr) and v.obj.fields is not None:
+                fn = v.obj.fields.get(0)
+                if fn and isinstance(fn[1], FnPtr):
+                    for fam, need in BUDGET.items():
+                        if fn[1].name.startswith(fam):
+                            seen += 1
+                            w = C14.WINDOWS.get(fn[1].name)
+                            if w is not None and w[1] < need:
+                                bad = bad or '%s installed by the module equals %s_ref only up to 2^%d; the module feeds it values up to 2^%d' % (
+                                    fn[1].name, fam, w[1], need)
+        n += 1
+        subj = 'new_module_info(%d, FFT64) conversions' % N
+        if seen != len(BUDGET):
+            R.broke('%s: %d conversion tables found in the module, expected %d' % (subj, seen, len(BUDGET)))
+        elif bad:
+            R.ob('accelerated-kernel-selected-only-where-it-equals-the-reference', subj, 'refuted', detail=bad,
+                 key='module:conversion-window', witness={'N': N, 'cpu': 'accel'})
+        else:
+            R.ob('accelerated-kernel-selected-only-where-it-equals-the-reference', subj, 'holds')
     # the module table
     for mtype, nm in ((0, 'FFT64'), (1, 'NTT120')):
         for N in (2, 16, 64):
